@@ -33,6 +33,7 @@ RULE = ("enum: name = prefix + sep.join(segs); segs = every list of 0..6 (quick 
         "url non-trivial = capture beginning with a separator or holding a dot segment or "
         "backslash. text: Hypothesis names (unicode text, segment lists mixing the alphabet with drawn text, look-alike "
         "separators) x 13 roots; non-trivial as for enum, distinct by (root, name).")
+RULE += (" " + "Sibling directory names include case variants and case-folding look-alikes of the root's own name (U+017F, U+212A, full-width letters).")
 ASSUMPTIONS = [
     "the root directory named by `root` is abspath(root) (either with backslashes read as separators, as the function "
     "does, or taken literally): a result inside either reading is accepted",
